@@ -46,7 +46,32 @@ let () =
         let cap = List.fold_left (fun acc h ->
           if String.length h > 4 && String.sub h 0 4 = "cap=" then n_of_string (String.sub h 4 (String.length h - 4)) else acc)
           (n_of_int 4) hdr in
-        if cap = N0 then Printf.printf "%s BADCAP\n" id
+        if List.exists (fun h -> String.length h > 7 && String.sub h 0 7 = "client=") hdr then begin
+          let get k = List.fold_left (fun acc h ->
+            let kl = String.length k in
+            if String.length h > kl && String.sub h 0 kl = k then Some (n_of_string (String.sub h kl (String.length h - kl))) else acc) None hdr in
+          let cid = match get "client=" with Some c -> c | None -> N0 in
+          let raw = get "series=" <> None || get "resp=" <> None in
+          let init =
+            if raw then Some { c_client = cid; c_series = (match get "series=" with Some x -> x | None -> N0);
+                               c_responded = (match get "resp=" with Some x -> x | None -> N0) }
+            else c_prepare_for_propose (c_new cid) in
+          match init with
+          | None -> Printf.printf "%s init panic\n" id
+          | Some s0 ->
+            let cs = ref s0 in
+            List.iteri (fun k o ->
+              match o with
+              | "P" -> Printf.printf "%s %d P %s %s %s\n" id k (string_of_n !cs.c_client) (string_of_n !cs.c_series) (string_of_n !cs.c_responded)
+              | "C" | "PROP" | "REG" | "UNREG" ->
+                let f = match o with "C" -> c_proposal_completed | "PROP" -> c_prepare_for_propose
+                                   | "REG" -> c_prepare_for_register | _ -> c_prepare_for_unregister in
+                (match f !cs with
+                 | None -> Printf.printf "%s %d %s panic\n" id k o
+                 | Some s' -> cs := s'; Printf.printf "%s %d %s ok %s %s\n" id k o (string_of_n s'.c_series) (string_of_n s'.c_responded))
+              | w -> Printf.printf "%s %d ? %s\n" id k w) (split_ops body)
+        end
+        else if cap = N0 then Printf.printf "%s BADCAP\n" id
         else begin
           let st = ref (acc_init cap) in
           List.iteri (fun k o ->
